@@ -131,6 +131,8 @@ JOBS['C02'] = [
      'expect_reach': ['end', 'quit-refused', 'quit-allowed', 'switch-refused', 'switched', 'revisited'], 'timeout': {'quick': 280, 'thorough': 1700}},
 ]
 JOBS['C02'].append(
+    {'name': 'unnamed_first_write', 'harness': 'c02_unnamed.c', 'units': 'ALL', 'defs': {}, 'expect_reach': ['end', 'partial', 'whole']})
+JOBS['C02'].append(
     {'name': 'full_table', 'harness': 'c02_bufs.c', 'units': _bufs_units,
      'defs': {'quick': {'K': 1, 'NFILES': 17, 'PREOPEN': 16}, 'thorough': {'K': 2, 'NFILES': 17, 'PREOPEN': 16}},
      'expect_reach': ['end', 'table-full', 'quit-refused'], 'timeout': {'quick': 280, 'thorough': 1700}})
